@@ -95,10 +95,10 @@ def _mesh_unchanged(mesh, snap):
 
 
 def _restore_mesh(mesh, snap):
-    """emergency only (never taken when the exactness pre-checks are right): put the saved corners back"""
+    """put the saved corners back by running the Region constructor again on each Region object (public API only)"""
     corners, _ = snap
     for r, (lo, hi) in zip(_regions(mesh), corners):
-        r._pmin, r._pmax = lo.copy(), hi.copy()
+        r.__init__(p1=lo.copy(), p2=hi.copy(), dims=r.dims, units=r.units, tolerance_factor=r.tolerance_factor)
 
 
 def _quiet(fn):
